@@ -78,7 +78,7 @@ def _walk_types(T):
         elif tag in ("utuple", "ustar"):
             for e in T[1] + [T[2]] + T[3]:
                 yield from _walk_types(e)
-        elif tag in ("newtype", "fwd"):
+        elif tag in ("newtype", "fwd", "tvarc", "tvarb"):
             yield from _walk_types(T[2])
         elif tag in ("enum", "flag", "literal", "text"):
             return
@@ -130,7 +130,7 @@ def _union_misdispatch(T, v, out):
     elif tag in ("dict", "mapping", "mmapping", "odict", "ddict", "mproxy") and isinstance(v[1], list):
         for kv in v[1]:
             _union_misdispatch(T[2], kv[1], out)
-    elif tag in ("newtype", "fwd"):
+    elif tag in ("newtype", "fwd", "tvarc", "tvarb"):
         _union_misdispatch(T[2], v, out)
     elif tag == "tdict" and v[0] == "dict":
         have = {kv[0][1]: kv[1] for kv in v[1] if kv[0][0] == "str"}
